@@ -20,12 +20,12 @@ def mk(n, tier, tag):
     d = ('VERIF_N=%d' % n,)
     return [
         Obl('C02.1' + tag, H, 'obl_c02_locate', 'B', 'LocateAlive over all slots + remove_if_alive + exclusive_scan_counts: vacancies = sorted empty slots, '
-            'counts = exclusive prefix sums, totals (N=%d)' % n, mode='bv', defines=d, cuts=CUTS, tier=tier, timeout=120, stubs=STUBS, validate_n=10),
+            'counts = exclusive prefix sums, totals (N=%d)' % n, mode='bv', defines=d, precut=CUTS, tier=tier, timeout=120, stubs=STUBS, validate_n=10),
         Obl('C02.2' + tag, H, 'obl_c02_process_slot', 'B', 'one ProcessSecondariesExecutor call: each valid secondary -> exactly one in-place track or one '
             'initializer at its scan position; consecutive event-unique ids; parent id/event/position carried; nothing else written (N=%d)' % n,
-            mode='bv', defines=d, cuts=CUTS, tier=tier, timeout=120, stubs=STUBS, validate_n=10),
+            mode='bv', defines=d, precut=CUTS, tier=tier, timeout=120, stubs=STUBS, validate_n=10),
         Obl('C02.3' + tag, H, 'obl_c02_init_thread', 'B', 'one InitTracksExecutor thread: vacancy nv-1-t receives initializer ninit-1-t, status initializing, '
-            'no other slot written (N=%d)' % n, mode='bv', defines=d, cuts=CUTS, tier=tier, timeout=120, stubs=STUBS, validate_n=10),
+            'no other slot written (N=%d)' % n, mode='bv', defines=d, precut=CUTS, tier=tier, timeout=120, stubs=STUBS, validate_n=10),
     ]
 
 
